@@ -527,6 +527,98 @@ def check_mkl_base(model, rep):
         raise AnalysisError(f'MKL index-base typing matched only {n} sites')
 
 
+def check_products(model, rep):
+    '''R15.7: matrix @ array contracts the matrix columns with the FIRST axis of an operand of any dimension
+    (Matrix.solve passes multi-column right-hand sides and `@` is documented as "multiply with a dense tensor").'''
+    from sa.einsum import canon
+    c = model.cls('matrix._numpy:NumpyMatrix')
+    f = c.members['__matmul__'].func
+    rets = find_stmts(f.body, lambda s: isinstance(s, ast.Return))
+    if len(rets) != 1:
+        raise AnalysisError('NumpyMatrix.__matmul__: expected one return')
+    e = rets[0].value
+    verdict, det = None, ''
+    if isinstance(e, ast.Call) and src(e.func) in ('numpy.einsum',) and e.args and isinstance(const(e.args[0]), str):
+        pat = canon(const(e.args[0]))
+        ops = [src(a) for a in e.args[1:]]
+        if pat == 'ab,b...->a...' and ops == ['self.core', 'other']:
+            verdict, det = True, f"einsum('{const(e.args[0])}') contracts the columns with the first operand axis for any operand dimension"
+        elif pat == 'a...,ba->b...' and ops == ['other', 'self.core']:
+            verdict, det = True, 'einsum contracts the columns with the first operand axis'
+        else:
+            verdict, det = False, f"einsum pattern '{const(e.args[0])}' over {ops} is not 'ij,j...->i...' over (self.core, other)"
+    elif isinstance(e, ast.Call) and src(e.func) == 'numpy.tensordot' and [src(a) for a in e.args[:2]] == ['self.core', 'other'] and \
+            (len(e.args) > 2 and src(e.args[2]) in ('1', '(1, 0)', '([1], [0])') or any(k.arg == 'axes' and src(k.value) in ('1', '(1, 0)', '([1], [0])') for k in e.keywords)):
+        verdict, det = True, 'tensordot(self.core, other, 1) contracts the columns with the first operand axis'
+    elif (isinstance(e, ast.BinOp) and isinstance(e.op, ast.MatMult)) or (isinstance(e, ast.Call) and src(e.func) in ('numpy.matmul', 'numpy.dot', 'self.core.dot', 'self.core.__matmul__')):
+        verdict, det = False, (f'`{src(e)}` uses matmul/dot semantics: for an operand with three or more axes NumPy treats it as a stack of matrices and contracts '
+                               'its second-to-last axis, not the first one; vectors and 2-D operands (all the tests use) are unaffected')
+    if verdict is None:
+        raise AnalysisError(f'NumpyMatrix.__matmul__: cannot classify `{src(e)[:80]}`')
+    rep.ob('R15.7', f.key, f.where(rets[0]), verdict, det, statement='matmul-contraction')
+    # the operand checks in front of the product, identical in the sibling backends
+    for key in ('matrix._numpy:NumpyMatrix.__matmul__', 'matrix._scipy:ScipyMatrix.__matmul__', 'matrix._mkl:MKLMatrix.__matmul__'):
+        g = model.func(key)
+        ifs = [s for s in g.body if isinstance(s, ast.If)]
+        ok = any(src(s.test) == 'not isinstance(other, numpy.ndarray)' and any(isinstance(b, ast.Raise) and 'TypeError' in src(b) for b in s.body) for s in ifs) and \
+            any(src(s.test) == 'other.shape[0] != self.shape[1]' and any(isinstance(b, ast.Raise) and 'MatrixError' in src(b) for b in s.body) for s in ifs)
+        rep.ob('R15.7', g.key, g.where(), ok, 'operands of the wrong type or first-axis length are rejected' if ok else
+               'the operand guards (ndarray type, other.shape[0] == ncols) of __matmul__ changed', statement='matmul-guards')
+
+
+def check_compress_indices(model, rep):
+    '''R15.8: assemble_coo turns row indices into row pointers with numeric.compress_indices, which must reject
+    unsorted / out-of-range rows for every integer dtype (differences of unsigned indices wrap unless computed in a signed type).'''
+    f = model.func('numeric:compress_indices')
+    pos, _, _, _ = params(f.node)
+    idx, length = pos[0], pos[1]
+    from sa.guards import facts_at
+    rets = find_stmts(f.body, lambda s: isinstance(s, ast.Return))
+    final = [r for r in rets if 'repeat' in src(r)]
+    if len(final) != 1:
+        raise AnalysisError('compress_indices: final return with numpy.repeat not found')
+    facts = facts_at(f.node, lambda s: s is final[0])
+    lo = holds_compare(facts, f'{idx}[0]', '>=', '0')
+    hi = holds_compare(facts, f'{idx}[-1]', '<', length)
+    rep.ob('R15.8', f.key, f.where(final[0]), lo is not None and hi is not None, 'out-of-range row indices are rejected before compression' if lo is not None and hi is not None else
+           f'the bounds guard `{idx}[0] < 0 or {idx}[-1] >= {length}` no longer dominates the compression', statement='bounds-guard')
+    # every difference written into the step array is computed in the (signed, wide) dtype of that array
+    step_defs = [s for s in find_stmts(f.body, lambda s: isinstance(s, ast.Assign)) if isinstance(s.value, ast.Call) and src(s.value.func) in ('numpy.empty', 'numpy.zeros')
+                 and any(k.arg == 'dtype' and src(k.value) == 'int' for k in s.value.keywords)]
+    if len(step_defs) != 1:
+        raise AnalysisError('compress_indices: the signed work array `step` was not found')
+    step = src(step_defs[0].targets[0])
+    writes = 0
+    for s in find_stmts(f.body, lambda s: isinstance(s, (ast.Expr, ast.Assign, ast.AugAssign))):
+        if isinstance(s, ast.Expr) and isinstance(s.value, ast.Call) and src(s.value.func) in ('numpy.add', 'numpy.subtract'):
+            out = next((k.value for k in s.value.keywords if k.arg == 'out'), None)
+            if out is None or not src(out).startswith(step):
+                continue
+            writes += 1
+            dt = next((k.value for k in s.value.keywords if k.arg == 'dtype'), None)
+            ok = dt is not None and src(dt) in (f'{step}.dtype', 'int', 'numpy.int64', 'numpy.intp')
+            rep.ob('R15.8', f.key, f.where(s), ok, f'`{stmt_text(s)[:70]}` is computed in the signed dtype of {step}' if ok else
+                   f'`{stmt_text(s)[:90]}` has out= but no dtype=: NumPy computes in the dtype of the index operands, so differences of unsigned row indices wrap around and unsorted rows pass as sorted',
+                   statement=f'signed: {src(s.value.func)} -> {src(out)}')
+        elif isinstance(s, ast.Assign) and isinstance(s.targets[0], ast.Subscript) and src(s.targets[0].value) == step:
+            writes += 1
+            has_idx_arith = any(isinstance(n, ast.BinOp) and isinstance(n.op, (ast.Sub, ast.Add)) and idx in src(n) for n in ast.walk(s.value))
+            cast = any(isinstance(c_, ast.Call) and (method_name(c_) == 'astype' or src(c_.func) in ('numpy.asarray', 'numpy.array')) for c_ in ast.walk(s.value))
+            ok = not has_idx_arith or cast
+            rep.ob('R15.8', f.key, f.where(s), ok, f'`{stmt_text(s)[:70]}` does not subtract raw index arrays' if ok else
+                   f'`{stmt_text(s)[:90]}` subtracts the raw index arrays: unsigned indices wrap around', statement=f'signed: {src(s.targets[0])}')
+    if writes < 3:
+        raise AnalysisError(f'compress_indices: only {writes} writes into {step} recognised')
+    # a negative step must surface as ValueError
+    tr = [t for t in find_stmts(f.body, lambda s: isinstance(s, ast.Try)) if final[0] in t.body]
+    ok = len(tr) == 1 and [src(h.type) for h in tr[0].handlers] == ['ValueError'] and any(isinstance(b, ast.Raise) and 'ValueError' in src(b) for b in tr[0].handlers[0].body)
+    rep.ob('R15.8', f.key, f.where(final[0]), ok, 'a negative step (unsorted rows) surfaces as ValueError' if ok else 'the conversion of a negative repeat count into ValueError changed', statement='unsorted-rejected')
+    g = model.func('matrix:assemble_coo')
+    ok = 'numeric.compress_indices(rowidx, nrows)' in src(g.node) and 'assemble_csr(values, ' in src(g.node)
+    rep.ob('R15.8', g.key, g.where(), ok, 'assemble_coo derives rowptr with compress_indices(rowidx, nrows) and hands over to assemble_csr' if ok else
+           'assemble_coo no longer validates rows through compress_indices', statement='coo-via-compress')
+
+
 def run(model, rep, tier):
     rep.explanation = (
         'R15.1 who-may-call: backend.current.assemble is called only from assemble_csr, backend matrix classes are constructed only in their own module, '
@@ -543,12 +635,16 @@ def run(model, rep, tier):
     rep.rule('R15.4', 'constructor arity of backend matrix classes')
     rep.rule('R15.5', 'MKL one-based index discipline (index-base typing)')
     rep.rule('R15.6', 'derived operators and caches of the Matrix base class')
+    rep.rule('R15.7', 'matrix-array product contracts the first operand axis for any operand dimension')
+    rep.rule('R15.8', 'COO row compression rejects unsorted / out-of-range rows for every integer dtype')
     check_validation(model, rep)
     check_gateway(model, rep)
     check_siblings(model, rep)
     check_arity(model, rep)
     check_base_operators(model, rep)
     check_mkl_base(model, rep)
+    check_products(model, rep)
+    check_compress_indices(model, rep)
     rep.require('R15.2', 12)
     rep.require('R15.1', 9)
     rep.require('R15.3', 30)
